@@ -185,6 +185,40 @@ def r2_mirror_construction(ctx: Ctx) -> None:
     ctx.check(stores.get(ident) == canon(mp.node, ctor[0]) and stores.get(f"f'{{{ident}}}_mirror'") == canon(mp.node, ctor[1]),
               "Bus.map:stores", "the two mappings are stored under the identifiers the lookups use")
     ctx.count("mirror_facts", 5)
+    # unmap removes what map stored: the mapping and its mirror (a mirror left behind keeps translating addresses of a range that is gone)
+    um = ctx.repo.func(MAPPING, "Bus.unmap")
+    uid = um.params()[1]
+    removed: set[str] = set()
+
+    def keys_of(node: ast.AST, loopvar: str | None, elts: list[str]) -> None:
+        for n in ast.walk(node):
+            key = None
+            if isinstance(n, ast.Delete):
+                for t in n.targets:
+                    if isinstance(t, ast.Subscript) and unparse(t.value) == "self.mappings":
+                        key = t.slice
+            if isinstance(n, ast.Call) and call_name(n) == "self.mappings.pop" and n.args:
+                key = n.args[0]
+            if key is not None:
+                text = canon(um.node, key)
+                if loopvar is not None and unparse(key) == loopvar:
+                    removed.update(elts)
+                else:
+                    removed.add(text)
+
+    loops_u = [n for n in walk_no_nested(um.node) if isinstance(n, ast.For)]
+    inside_u: set[int] = set()
+    for lp_u in loops_u:
+        if isinstance(lp_u.iter, (ast.Tuple, ast.List)) and isinstance(lp_u.target, ast.Name):
+            keys_of(ast.Module(lp_u.body, []), lp_u.target.id, [canon(um.node, e) for e in lp_u.iter.elts])
+            inside_u |= {id(x) for b in lp_u.body for x in ast.walk(b)}
+        else:
+            raise AnalysisError("Bus.unmap: loop over something else than a literal tuple of identifiers; not modelled")
+    for st_u in um.node.body:
+        if not isinstance(st_u, ast.For):
+            keys_of(st_u, None, [])
+    want_u = {uid, f"f'{{{uid}}}_mirror'"}
+    ctx.check(removed == want_u, "Bus.unmap:removes-both", f"the mapping and its `_mirror` twin are both removed; keys removed: {sorted(removed)}")
 
 
 def _callee_params(ctx: Ctx, name: str) -> list[str] | None:
@@ -431,4 +465,13 @@ def ru_names_bound(ctx: Ctx) -> None:
     names_rule(ctx)
 
 
-RULES = [r1_builtin_maps, r2_mirror_construction, r3_argument_binding, r4_rejection, r5_formula_normal_form, r6_user_bus_is_per_resolver, rb_binding_agreement, rm_no_process_lifetime_results, ru_names_bound]
+
+def r7_selected_mapping_is_applied(ctx: Ctx) -> None:
+    """the mapping a front end was asked for is the one the bus laws are evaluated with: both file entry points select it before assembling
+    (shared with C12.R1)"""
+    from .c12 import mapping_applied
+
+    mapping_applied(ctx)
+
+
+RULES = [r1_builtin_maps, r2_mirror_construction, r3_argument_binding, r4_rejection, r5_formula_normal_form, r6_user_bus_is_per_resolver, r7_selected_mapping_is_applied, rb_binding_agreement, rm_no_process_lifetime_results, ru_names_bound]
